@@ -36,6 +36,19 @@ CLAIMS = {
              "FIFO order of the observed enqueues (hook), idle only when quiescent, external events in send order each "
              "once, and an event without enabled transition leaves no observation.",
         note=CORE_NOTE),
+    "C04": dict(
+        category="translation_validation", design_ref="4/C04",
+        technique="Mirror.tla: refinement relation document -> reader model, evaluated by TLC on dumped models; SameModel across lexical variants",
+        text="Random documents over every element kind and attribute combination (states/parallel/final/history, forward "
+             "references, multi-targets, initial attribute/element/default, data expr/content, invoke with all attributes, "
+             "param/content/finalize, donedata, send with all attribute alternatives and delay spellings, cancel, log, script, "
+             "assign with body, nested if/elseif/else and foreach) are serialised in 10 lexical variants (canonical, whitespace "
+             "and comments, single quotes, entity escapes, namespace prefix, attribute order, open/close, descriptor spellings "
+             "e / e. / e.*, XInclude of fragments, CDATA); the reader's model is dumped through its public fields and TLC "
+             "evaluates Mirrors(D, M) (bijection by name, document order from the reader's ids, kinds, parent/children/history "
+             "links, initial synthesis, transitions with normalised descriptors and wildcard flag, content trees) and "
+             "SameModel(M_variant, M_canonical).",
+        note="Trusted: the model dump (harness/src/dump.rs) and the canonicalisation in tools/syntaxgen.py; coverage is that of the generator."),
     "C06": dict(
         category="model_checking", design_ref="4/C06",
         technique="TLC model checking of Session.tla (HistShape) + lock-step trace validation against Sem.tla on history documents",
